@@ -7,5 +7,5 @@
 import sys, json
 sys.path.insert(0, '/verif')
 from engine.pysym import env
-SPEC = json.loads('{"prop": "C19", "key": "py:computed:nest_div_mul:wrong-value", "obligation": "computed.int-expression==mathematical-value", "job": {"harness": "harness.py.generated:h_c19_int", "params": {"rec": "RecI32", "field": "nest_div_mul"}, "limits": {"budget_s": 60, "max_paths": 4000}, "hooks": null}, "inputs": {"a": 67108864, "b": -32}}')
+SPEC = json.loads('{"prop": "C19", "key": "py:computed:nest_div_mul:wrong-value", "obligation": "computed.int-expression==mathematical-value", "job": {"harness": "harness.py.generated:h_c19_int", "params": {"rec": "RecI32", "field": "nest_div_mul"}, "limits": {"budget_s": 480, "max_paths": 4000}, "hooks": null}, "inputs": {"a": 2, "b": -1010827264}}')
 sys.exit(env.replay_main(SPEC))
